@@ -15,12 +15,47 @@ thread_local! {
     static ALLOCS: Cell<u64> = const { Cell::new(0) };
     static DEALLOCS: Cell<u64> = const { Cell::new(0) };
     static BYTES: Cell<u64> = const { Cell::new(0) };
+    /// > 0: inside a measurement window, allocations of at least this many bytes with table
+    /// alignment (>= 16) fail (return null)
+    static FAIL_ABOVE: Cell<usize> = const { Cell::new(0) };
+    static FAILED: Cell<u32> = const { Cell::new(0) };
+}
+
+/// arms the allocation limit (0 disarms it)
+pub fn alloc_fail_above(bytes: usize) {
+    FAIL_ABOVE.with(|c| c.set(bytes));
+    FAILED.with(|c| c.set(0));
+}
+/// disarms the allocation limit when it goes out of scope (also on unwinding)
+pub struct AllocLimit;
+impl Drop for AllocLimit {
+    fn drop(&mut self) {
+        let _ = FAIL_ABOVE.try_with(|c| c.set(0));
+    }
+}
+/// disarms the limit and says how many allocations it refused
+pub fn alloc_fail_take() -> u32 {
+    FAIL_ABOVE.with(|c| c.set(0));
+    FAILED.with(|c| c.replace(0))
+}
+#[inline]
+fn refuse(layout: &Layout) -> bool {
+    let lim = FAIL_ABOVE.try_with(|c| c.get()).unwrap_or(0);
+    if lim > 0 && layout.size() >= lim && layout.align() >= 16 && WIN.try_with(|w| w.get()).unwrap_or(false) {
+        let _ = FAILED.try_with(|c| c.set(c.get() + 1));
+        true
+    } else {
+        false
+    }
 }
 
 pub struct Counting;
 
 unsafe impl GlobalAlloc for Counting {
     unsafe fn alloc(&self, layout: Layout) -> *mut u8 {
+        if refuse(&layout) {
+            return std::ptr::null_mut();
+        }
         let _ = WIN.try_with(|w| {
             if w.get() {
                 ALLOCS.with(|c| c.set(c.get() + 1));
@@ -38,6 +73,9 @@ unsafe impl GlobalAlloc for Counting {
         System.dealloc(ptr, layout)
     }
     unsafe fn alloc_zeroed(&self, layout: Layout) -> *mut u8 {
+        if refuse(&layout) {
+            return std::ptr::null_mut();
+        }
         let _ = WIN.try_with(|w| {
             if w.get() {
                 ALLOCS.with(|c| c.set(c.get() + 1));
